@@ -126,6 +126,13 @@ func (e *StorageEngine) get(addr oid.Address, shardFunc func(s *shard.Shard, ign
 			continue
 		}
 
+		// Metabase of this shard is available, so its verdict must be
+		// respected: data of an object it knows as removed (garbage mark,
+		// tombstone, expiration) or as a parent must not be read directly.
+		if _, err := sh.Exists(addr, false); err != nil {
+			continue
+		}
+
 		err := shardFunc(sh.Shard, true)
 		if errors.Is(err, apistatus.ErrObjectOutOfRange) {
 			return err
